@@ -117,7 +117,7 @@ func asInt(v any) int {
 	fatal("asInt: unexpected %T", v)
 	return 0
 }
-func asBool(v any) bool { b, _ := v.(bool); return b }
+func asBool(v any) bool  { b, _ := v.(bool); return b }
 func asStr(v any) string { s, _ := v.(string); return s }
 func asList(v any) []any {
 	if v == nil {
@@ -191,6 +191,13 @@ func (r *Registry) Payload(tok int) any {
 	}
 	r.vals[tok] = v
 	return v
+}
+
+// SetPayload registers a specific Go value as the payload of token tok.
+func (r *Registry) SetPayload(tok int, v any) {
+	r.mu.Lock()
+	r.vals[tok] = v
+	r.mu.Unlock()
 }
 
 // Observe recovers the token of a plain (non-Result) value and reports whether
